@@ -161,11 +161,14 @@ EnumClosed(ctx, f, t) == IF t.enum = "" \/ t.enumph THEN FALSE
 FieldCore(ctx, f, scope, pef, inMapEntry, x, isExt) ==
   LET ef0 == Merge(pef, x.feat)
       ef == IF x.packed = "" THEN ef0 ELSE [ef0 EXCEPT !.packed = (x.packed = "t")]
-      k0 == IF x.type = KMessage /\ ef.delim THEN KGroup ELSE x.type
-      t == Target(ctx, f, scope, k0, x.tname)
+      \* the kind as declared, or -- `type` omitted (0) -- the kind of the declaration that type_name denotes
+      t == Target(ctx, f, scope, x.type, x.tname)
+      \* message_encoding = DELIMITED makes every message-kind field a group, however the kind was arrived at
+      \* (the resolved feature decides, not the spelling of the descriptor proto)
+      kd == IF t.kind = KMessage /\ ef.delim THEN KGroup ELSE t.kind
       ismapentry == TargetIsMapEntry(f, t)
       \* maps never use delimited encoding
-      k1 == IF ~isExt /\ t.kind = KGroup /\ (ismapentry \/ inMapEntry) THEN KMessage ELSE t.kind
+      k1 == IF ~isExt /\ kd = KGroup /\ (ismapentry \/ inMapEntry) THEN KMessage ELSE kd
       \* an absent label reads as LABEL_OPTIONAL (the proto2 default of the descriptor field)
       card == IF ~isExt /\ ef.lr THEN 2 ELSE IF x.label = 0 THEN 1 ELSE x.label
   IN [ef |-> ef, t |-> t, kind |-> k1, card |-> card, ismap |-> ~isExt /\ ismapentry]
@@ -204,10 +207,15 @@ OptView(x, kind) ==
 \* keyed lookups over one field list: first element having the key among its keys
 FieldKeys(names, jsons, texts, nums, glike) ==
   [names |-> names, jsons |-> jsons, texts |-> texts, nums |-> nums, glike |-> glike]
-FirstWithJSON(K, s) == LET S == {i \in 1..Len(K.jsons) : K.jsons[i] = s \/ (K.glike[i] /\ Lower(K.jsons[i]) = s)} IN
-                       IF S = {} THEN -1 ELSE MinOf(S) - 1
-FirstWithText(K, s) == LET S == {i \in 1..Len(K.texts) : K.texts[i] = s \/ (K.glike[i] /\ Lower(K.texts[i]) = s)} IN
-                       IF S = {} THEN -1 ELSE MinOf(S) - 1
+\* The key of a field is its exact JSON / text name: the lookup returns the FIRST field with that key.  The lower-cased
+\* name of a group-like field is a compatibility alias, not a key: it answers only when no field at all has that exact
+\* name (it must never shadow a field's own name, wherever that field is declared).
+FirstKeyed(keys, glike, s) ==
+  LET E == {i \in 1..Len(keys) : keys[i] = s}
+      A == {i \in 1..Len(keys) : glike[i] /\ Lower(keys[i]) = s}
+  IN IF E # {} THEN MinOf(E) - 1 ELSE IF A # {} THEN MinOf(A) - 1 ELSE -1
+FirstWithJSON(K, s) == FirstKeyed(K.jsons, K.glike, s)
+FirstWithText(K, s) == FirstKeyed(K.texts, K.glike, s)
 
 FieldView(ctx, f, scope, sdepth, x, c, isExt, j, K, oneofs) ==
   LET glike == GroupLike(x, c, isExt, scope)
@@ -247,7 +255,7 @@ FieldView(ctx, f, scope, sdepth, x, c, isExt, j, K, oneofs) ==
       oneofn |-> IF isExt \/ x.oneof = 0 THEN "" ELSE Join(scope, oneofs[x.oneof].name),
       cmsg |-> extendee.full, cmsgph |-> extendee.ph,
       enum |-> c.t.enum, enumph |-> c.t.enumph, msg |-> c.t.msg, msgph |-> c.t.msgph,
-      utf8 |-> ~isExt /\ c.ef.utf8, ef |-> c.ef, o |-> OptView(x, "field")]
+      utf8 |-> c.ef.utf8, ef |-> c.ef, o |-> OptView(x, "field")]
 
 RangeProbes(rs, incl) ==
   Flatten([k \in 1..Len(rs) |->
